@@ -9,8 +9,9 @@ import itertools
 from ..core import Sub, fail, close, isnum, scale
 from .. import formula as F
 
-# delivery-channel differential (core.Env): of every 6 evaluations that bind variables, one is repeated with the
-# values handed in by the cell/range listeners and one with the values returned by custom functions; outcomes must agree
+# delivery-channel and host-type differential (core.Env): of every 6 evaluations that bind variables, one is repeated with the
+# values handed in by the cell/range listeners, one with the values returned by custom functions and one with every value an
+# instance of a trivial subclass of its type (numpy.float64, IntEnum, rich-text str ... are such); outcomes must agree
 CHANNELS = 6
 
 BOUNDS = {
